@@ -15,12 +15,22 @@
     * `ignore_swallows_value`   the state machine behind it: `unfolderIgnore` consumes one
       complete value and pops exactly itself.
 
-  The value-assignment clauses (generic data for `interface{}` targets, numeric conversions,
-  typed targets) are decided by the independent specification `SF.Unf.Spec` evaluated as an
-  oracle on what the implementation printed, over generated streams × targets, and by the
-  correspondence with the mirror (SF/Ops/Unfold.lean).
+    * `unfold_into_interface(_fresh)`, `generic_value_delivered`, `delivered_value_is_generic`:
+      THE GENERIC CLAUSE — for every well-formed value tree (any nesting, announced lengths -1 or
+      real, every element-type hint, strings/keys by value or by reference) unfolding into an
+      empty interface — top level, or any `interface{}` position inside a generic container or
+      a struct field — succeeds, delivers exactly the value `UnfoldSpec.generic` assigns to the
+      stream (typed slices / maps where an element type is announced; equality up to
+      nil ≙ empty, literally equal when no container is empty), and leaves the context exactly
+      as it was (all six stacks idle, scratch slots popped);
+    * `unfold_into_map`, `unfold_into_slice`: the same for `map[string]interface{}` and
+      `[]interface{}` targets, nil or already holding data (old members kept unless mentioned).
+  Proofs: SF/Proofs/UnfIgnore.lean, UnfGen*.lean.  Typed targets (numeric conversions between
+  widths, structs, pointers): scalar conversion lemmas in SF/Props/C11.lean, the rest by the
+  independent specification `SF.Unf.Spec` as an oracle + correspondence (SF/Ops/Unfold.lean).
 -/
 import SF.Proofs.UnfIgnore
+import SF.Proofs.UnfGenericTop
 import SF.Gotype.Menagerie
 namespace SF.Props.C13
 open SF SF.Unf
@@ -66,6 +76,45 @@ theorem unknown_members_skipped (f : Nat) (ms : List (Bool × Bytes × UTree)) (
     rw [eventsMems,
       run_ok_then _ _ _ _ _ (unknown_member_skipped f r k v c fields hcur (hkeys (r, k, v) (by simp)))]
     exact ih (fun m hm => hkeys m (by simp [hm]))
+
+/-! ### the generic clause -/
+
+/-- C13 (generic clause), new Unfolder: `SetTarget(&v)` with `var v interface{}` followed by the
+events of ANY well-formed value tree `t`: the run succeeds, the target holds `t.gen`, which is
+the stream's generic value (`generic t.toS`) up to nil ≙ empty — literally equal when no
+container is empty —, every stack is idle and nothing else changed -/
+theorem unfold_into_interface_fresh (f : Nat) (tbl : TypeTable) (t : UTree) (hwf : t.wf = true) :
+    ∃ c₀ c₁, setTarget tbl .ifc .ifcNil newUnfolder = .ok c₀ ∧
+      run (f + 1) t.events c₀ = .ok () c₁ ∧
+      c₁ = { newUnfolder with target := t.gen, env := tbl } ∧
+      c₁.target = t.gen ∧ Spec.norm c₁.target = Spec.norm (Spec.generic t.toS) ∧
+      Spec.sameVal c₁.target (Spec.generic t.toS) = true ∧
+      (t.noEmpty = true → c₁.target = Spec.generic t.toS) ∧
+      c₁.depths = [0, 0, 0, 0, 0, 0] :=
+  SF.Unf.unfold_into_interface_fresh f tbl t hwf
+
+/-- … from ANY idle Unfolder (new, Reset, with or without key cache) and any old target value:
+the run ends in EXACTLY the context `c` with the target holding the stream's value -/
+theorem unfold_into_interface (f : Nat) (tbl : TypeTable) (v0 : GoVal) (t : UTree) (c : Ctx)
+    (hwf : t.wf = true) (hidle : c.unfolder.stack = []) (hkc : Symbols.Inv c.keyCache) :
+    ∃ c0 kc', setTarget tbl .ifc v0 c = .ok c0 ∧ KCOk c.keyCache kc' ∧
+      run (f + 1) t.events c0 = .ok () { c with target := t.gen, env := tbl, keyCache := kc' } :=
+  SF.Unf.unfold_into_interface f tbl v0 t c hwf hidle hkc
+
+/-- the delivered value is the specification's generic value of the stream -/
+theorem delivered_value_is_generic (t : UTree) (hwf : t.wf = true) :
+    Spec.norm t.gen = Spec.norm (Spec.generic t.toS) ∧ Spec.sameVal t.gen (Spec.generic t.toS) = true :=
+  SF.Unf.delivered_value_is_generic t hwf
+
+/-- … in ANY `interface{}` position inside a generic container (element of `[]interface{}`,
+member value of `map[string]interface{}`): the whole value tree behaves as ONE delivery of its
+generic value, nothing else changes -/
+theorem generic_value_into_container (f : Nat) (t : UTree) (c : Ctx) (hwf : t.wf = true)
+    (hu : c.unfolder.current = .arr .ifc ∨ c.unfolder.current = .mapVal .ifc)
+    (hS : c.unfolder.stack ≠ []) (hkc : Symbols.Inv c.keyCache) :
+    ∃ kc', KCOk c.keyCache kc' ∧
+      run (f + 1) t.events c = pukDeliver c.unfolder.current t.gen (setKC c kc') :=
+  SF.Unf.generic_value_into_container f t c hwf hu hS hkc
 
 /-- non-vacuity.  The context `SetTarget(&UIn{X: 5})` + `OnObjectStart` leaves behind for
 `type UIn struct { X int; Y string "why" }` (compiled fields: "x" ↦ offset 0 int, "why" ↦
